@@ -21,7 +21,7 @@ type Case struct {
 	Prog *Program `json:"prog,omitempty"`
 	Mode int      `json:"mode"`
 	Seed int64    `json:"seed"`
-	Raw  *string  `json:"raw,omitempty"`
+	Raw  *mon.Str `json:"raw,omitempty"`
 }
 
 func init() {
@@ -64,7 +64,8 @@ func generate(w *mon.W) {
 					} else {
 						m = gen.MutateBytes(mrng, src)
 					}
-					cm := &Case{Raw: &m}
+					mm := mon.Str(m)
+					cm := &Case{Raw: &mm}
 					w.Do("r|"+m, func(r *mon.R) { Check(cm, r) })
 				}
 			}
@@ -222,7 +223,7 @@ func siblingsOrdered(src string, v reflect.Value, r *mon.R) bool {
 func Check(c *Case, r *mon.R) {
 	r.Case = c
 	if c.Raw != nil {
-		src := *c.Raw
+		src := string(*c.Raw)
 		stmts, err, o := mon.Parse(src)
 		if o.Anomalous() {
 			r.Inconclusive("foreign_parse_anomaly")
